@@ -65,6 +65,10 @@ def sweep_bounds(tier):
         "TwoLevel period sweep": {"period": [1, 130 if q else 200], "n": "period+1 and 2*period+1", "binomial_snapshots": [0, 1]},
         "many passes": {"passes": 6 if q else 9, "classes": "SingleMemory, SingleDiskCopy n in {1,2,5}/{1,2,3,5,9}, TwoLevel same n "
                         "with b<=2 and n=13 with periods {4,5,13}"},
+        "1100 passes": "SingleDiskCopy n=1, SingleMemory n<=5, TwoLevel n=2 (periods 1, 3)",
+        "just above 256": "DiskRevolve / PeriodicDiskRevolve n in {258, 260} (thorough also 259, 270), HRevolve(260, 3, 5), default costs",
+        "long chains, many RAM units (thorough only)": "HRevolve n in {280, 300} with 22 RAM / 1-2 disk units (default and 10/10 disk costs), 10 RAM / 1 disk",
+        "just above 2**16": "Multistage(65539, 0, 1), TwoLevel(period 65540, 0) at n = 65539; thorough also Multistage(70000, 1, 0, revolve), SingleDisk n = 65537",
         "int-cache boundary": {"n": [256, 257] if q else [255, 256, 257, 300], "classes": "all, one or two small configurations each"},
         "Revolve/DiskRevolve/PeriodicDiskRevolve": {"n": [40, 64] if q else [40, 52, 64, 80, 100, 128],
                                                     "ram<=": "6/5/4" if q else "8/7/6"}}
@@ -121,6 +125,35 @@ def sweep_jobs(tier, classes=None, passes=None):
         add("SingleDiskCopy", n, mp, {"tag": "/passes%d" % mp}, w=n)
         add("TwoLevel", n, mp, {"bmax": 2, "tag": "/passes%d" % mp}, w=n * 6)
     add("TwoLevel", 13, mp, {"periods": [4, 5, 13], "b_list": [1, 3], "tag": "/passes%d" % mp}, w=60)
+    # more passes than the interpreter's recursion limit (generator chains that grow per pass)
+    add("SingleDiskCopy", 1, 1100, {"tag": "/passes1100", "extra_next": 0}, w=40)
+    add("SingleMemory", None, 1100, {"tag": "/passes1100", "Nmax": 5}, w=40)
+    add("TwoLevel", 2, 1100, {"periods": [1, 3], "b_list": [0], "tag": "/passes1100"}, w=60)
+    for j in jobs[-3:]:
+        # where a deep generator chain overflows the interpreter stack depends on the depth of the
+        # caller's own stack, so the symbolic run and its twin need not stop at the same action:
+        # no trace comparison for these three jobs (a failure is still replayed concretely)
+        j["validate"] = False
+    # keys / masks that assume a step fits in 8 bits: the Revolve family with disk just above 256
+    for n in (258, 260) if q else (258, 259, 260, 270):
+        add("DiskRevolve", n, 1, {"rmin": 2, "rmax": 3 if q else 6, "cost_choices": PV[:1], "tag": "/above256"}, w=n * 8)
+        add("PeriodicDiskRevolve", n, 1, {"rmin": 3, "rmax": 3 if q else 6, "cost_choices": PV[:1], "tag": "/above256"}, w=n * 6)
+    add("HRevolve", 260, 1, {"rmin": 3, "rmax": 3, "dmin": 5, "dmax": 5, "cost_choices": PV[:1], "tag": "/above256"}, w=6000)
+    # chunked / 16-bit thresholds: one unit, n just above 2**16 (long but cheap streams)
+    add("Multistage", 65539, 1, {"configs": [{"ram": 0, "disk": 1, "trajectory": "maximum"}], "tag": "/above2^16"}, w=30000)
+    add("TwoLevel", 65539, 1, {"configs": [{"period": 65540, "b": 0, "storage": "DISK", "trajectory": "maximum"}],
+                               "tag": "/above2^16"}, w=30000)
+    if not q:
+        add("Multistage", 70000, 1, {"configs": [{"ram": 1, "disk": 0, "trajectory": "revolve"}], "tag": "/above2^16"}, w=30000)
+        add("SingleDiskCopy", 65537, 2, {"tag": "/above2^16"}, w=30000)
+        add("SingleDiskMove", 65537, 1, {"tag": "/above2^16"}, w=30000)
+    if not q:
+        # long chains with many RAM units (tables capped / truncated at a few hundred steps)
+        for n in (280, 300):
+            add("HRevolve", n, 1, {"rmin": 22, "rmax": 22, "dmin": 1, "dmax": 2, "cost_choices": PV[:1] + [("1", "1", "10", "10")],
+                                    "tag": "/manyram"}, w=20000)
+            add("HRevolve", n, 1, {"rmin": 10, "rmax": 10, "dmin": 1, "dmax": 1, "cost_choices": [("1", "1", "10", "10")],
+                                    "tag": "/manyram10"}, w=20000)
     # CPython caches small ints up to 256: one probe on either side for every class
     for n in (256, 257) if q else (255, 256, 257, 300):
         add("Multistage", n, 1, {"ram_max": 1, "disk_max": 2, "tag": "/intcache"}, w=n)
@@ -172,7 +205,7 @@ PROPS = {
     "C03": sweep_prop(["C03."]),
     "C04": sweep_prop(["C04."]),
     "C08": sweep_prop(["C08."]),
-    "C09": sweep_prop(["C09.", "C01.reverse_data", "C01.ckpt_exists"], passes=3),
+    "C09": sweep_prop(["C09.", "C01.reverse_data", "C01.ckpt_exists", "X.exception"], passes=3),
     "C11": sweep_prop(["C11."]),
     "C12": sweep_prop(["C12."]),
 }
@@ -207,8 +240,12 @@ def _job(h, name, params, w=1, deadline=900):
 def c10_jobs(tier):
     from .lemmas import FIN_INSTANCES
     L = 4 if tier == "quick" else 6
-    return [_job("fin", "%s/L=%d" % (inst, L), {"inst": inst, "L": L}, w=10 if inst == "SingleDiskCopy" else 1,
+    jobs = [_job("fin", "%s/L=%d" % (inst, L), {"inst": inst, "L": L}, w=10 if inst == "SingleDiskCopy" else 1,
                  deadline=1800) for inst in FIN_INSTANCES]
+    # finalize arguments that are floats equal to integers (short histories)
+    for inst in ("SingleMemory", "None", "SingleDiskCopy", "TwoLevel2", "Multistage"):
+        jobs.append(_job("fin", "%s/L=3/float" % inst, {"inst": inst, "L": 3, "float_k": True}, w=2, deadline=1800))
+    return jobs
 
 
 PROPS["C10"] = {
@@ -217,7 +254,9 @@ PROPS["C10"] = {
                             "post_actions_compared": 4,
                             "k": "every finalize argument is an unbounded symbolic integer",
                             "TwoLevel.period": "unbounded symbolic integer >= 1",
-                            "offline_instances": "one small instance per offline class (n=4)"},
+                            "offline_instances": "one small instance per offline class (n=4)",
+                            "float arguments": "histories of 3 operations where k may be one of 0.0, 1.0, 2.0, 3.0, 5.0, 2.0**63, "
+                                               "3*2.0**62 (SingleMemory, None, SingleDiskCopy, TwoLevel period 2, Multistage)"},
     "outside": ["histories longer than the bound", "TwoLevel: actions after EndForward with a symbolic period"],
     "trusted": ["oracles.fin_spec (eight-line specification of finalize)", "z3"],
     "stubs": STUBS, "assumptions": [],
@@ -306,6 +345,9 @@ def c06_jobs(tier):
         # larger problems with few units: where truncated / pruned searches go wrong
         for n in range(15 if q else 37, 131 if q else 201):
             jobs.append(_job("mixed_planner", "n=%d/s<=12" % n, {"n": n, "smax": 12}, w=n * 3, deadline=3000))
+        for n in ((205, 229) if q else tuple(range(201, 261, 1))):
+            jobs.append(_job("mixed_planner", "n=%d/s=13..16" % n, {"n": n, "smin": 13, "smax": 15 if q else 16},
+                             w=n * 6, deadline=3000))
         for n in ((118,) if q else (60, 90, 118, 124, 150, 200)):
             jobs.append({"harness": "stream", "name": "stream/Mixed/n=%d/s<=12" % n,
                          "params": {"cls": "Mixed", "n": n, "passes": 1, "opts": {"smax": 12, "tag": "/s<=12"}},
@@ -318,6 +360,7 @@ PROPS["C06"] = {
     "bounds": lambda tier: {"streams": sweep_bounds(tier)["Mixed"],
                             "planner": {"n": [1, 14 if tier == "quick" else 36], "s": "symbolic, unbounded"},
                             "planner_large": {"n": [15, 130] if tier == "quick" else [37, 200], "s": [1, 12]},
+                            "planner_larger": {"n": [205, 229] if tier == "quick" else [201, 260], "s": [13, 15 if tier == "quick" else 16]},
                             "streams_large": {"n": [118] if tier == "quick" else [60, 90, 118, 124, 150, 200], "s": [1, 12]}},
     "outside": ["n beyond the bounds", "that the recurrence of Maddison (2024) is the optimum over ALL schedules (trusted)"],
     "trusted": ["Maddison (2024) section 3: oracles.E_mix is a first-principles transcription", "z3"],
@@ -473,6 +516,8 @@ def c15_jobs(tier):
         for first in range(0, len(pair_box(a, tier)), step):
             jobs.append(_job("hist_pair", "%s/othercost/first=%d" % (a, first),
                              {"cls": a, "tier": tier, "first": first, "cost_first": [3, 1, 0.5, 4]}, w=3, deadline=3000))
+    for cls in ("Multistage", "Mixed", "TwoLevel") + REVOLVE_FAMILY:
+        jobs.append(_job("hist_long", cls, {"cls": cls, "tier": tier}, w=30, deadline=3000))
     for j in jobs:
         # no symbolic value flows into the code here (only solver-enumerated choice indices), so the
         # concrete twin run of a path would be the identical execution: skipped
@@ -488,6 +533,8 @@ PROPS["C15"] = {
                             "same_family_pairs": "every ordered pair (first, target) of a parameter box per class (Multistage n<=8/12, "
                                                  "Mixed n<=9/14, TwoLevel n<=7/10, Revolve family n<=9/13 with ram<=3, disk<=3/4, default costs); "
                                                  "first is exhausted, advanced 4 actions, or only constructed",
+                            "long_histories": "per class: all instances of the box built once (exhausted / advanced / constructed), then all rebuilt "
+                                              "in the same, reverse or interleaved order (caches with a capacity)",
                             "cross_pairs": "first from another class (all ordered pairs within the Revolve family; Multistage<->TwoLevel, "
                                            "Multistage<->Mixed) or the same class with another cost vector; every 4th/2nd instance of the box as first"},
     "outside": ["histories longer than 2 operations", "parameters outside the instance list (chosen to collide on memo keys)",
